@@ -190,6 +190,22 @@ type valErr struct{ s string }
 
 func (e valErr) Error() string { return e.s }
 
+// ptrGroup is an error group with pointer receivers that do not guard against nil: every
+// method of a nil *ptrGroup panics.
+type ptrGroup struct {
+	msg  string
+	errs []error
+}
+
+func (g *ptrGroup) Error() string   { return g.msg }
+func (g *ptrGroup) Errors() []error { return g.errs }
+
+// panicCauses is an error group whose message is fine and whose Errors method panics.
+type panicCauses struct{ msg string }
+
+func (e panicCauses) Error() string   { return e.msg }
+func (e panicCauses) Errors() []error { panic("errors-panic-" + e.msg) }
+
 // expError models the documented representation of an error under key.
 func expError(b *ref.Builder, key string, err error) (string, bool) {
 	switch e := err.(type) {
@@ -200,6 +216,15 @@ func expError(b *ref.Builder, key string, err error) (string, bool) {
 			b.Add(key, ref.Str("<nil>"))
 			return "", false
 		}
+	case *ptrGroup:
+		if e == nil {
+			b.Add(key, ref.Str("<nil>"))
+			return "", false
+		}
+	case panicCauses:
+		// the message is emitted, then listing the causes panics: contained and reported
+		b.Add(key, ref.Str(e.msg))
+		return "errors-panic-", true
 	}
 	basic := err.Error()
 	b.Add(key, ref.Str(basic))
@@ -275,7 +300,15 @@ func (g *G) genError(depth int, allowPanic bool) (error, string) {
 		}
 		if allowPanic && r.P(1, 2) {
 			g.tag("error:nilptr")
+			if r.P(1, 2) {
+				return (*ptrGroup)(nil), "(*ptrGroup)(nil) [nil error group]"
+			}
 			return (*valErr)(nil), "(*valErr)(nil)"
+		}
+		if allowPanic && r.P(1, 3) {
+			g.tag("error:causes-panic")
+			m := g.Str()
+			return panicCauses{m}, fmt.Sprintf("panicCauses(%q)", m)
 		}
 		s := g.Str()
 		return errors.New(s), fmt.Sprintf("errors.New(%q)", s)
@@ -517,6 +550,9 @@ func (g *G) Scalar(key string) FieldCase {
 	case 25, 26: // error
 		err, d := g.genError(0, true)
 		_, fails := err.(panicErr)
+		if _, pc := err.(panicCauses); pc {
+			fails = true
+		}
 		g.tag("error")
 		f := zap.NamedError(key, err)
 		if useAny {
